@@ -37,6 +37,7 @@ func registerModels(e *Engine) {
 	registerJSONModels(e)
 	registerSymStringModels(e)
 	registerRestfulModels(e)
+	registerFSModels(e)
 }
 
 // ---------------------------------------------------------------- harness primitives
